@@ -51,7 +51,7 @@ def firstSome : List (Option Nat) → Option Nat
   | none :: rest => firstSome rest
 
 theorem or4 (a b c d : Option Nat) :
-    (a.or ((b.or c).or d)).or (Option.or none c) = firstSome [a, b, c, d] := by
+    a.or ((b.or c).or d) = firstSome [a, b, c, d] := by
   cases a <;> cases b <;> cases c <;> cases d <;> simp [firstSome]
 
 end Scrut.Config
